@@ -30,6 +30,9 @@ impl Head {
 
     pub fn write(&mut self, data: &[u8]) -> Result<(), IoError> {
         fail_point!("write-head");
+        // the read handle cached for the head file is a `try_clone` of this one and shares its
+        // cursor, so a `retrieve` from the head file leaves the cursor in the middle of the file
+        self.file.seek(SeekFrom::End(0))?;
         self.file.write_all(data)?;
         self.bytes += data.len() as u64;
         Ok(())
